@@ -43,6 +43,7 @@ struct ChineseRemainder {
         // Then res mod M == A
         // And  res mod D == e
     RingElement & operator()( RingElement& res, const RingElement& A, const DomainElement& e) const {
+        if (&res == &A) { const RingElement a(A); return (*this)(res, a, e); } // res may be the same object as A
         DomainElement smallA, smallM;
         _domain.init(smallA, A);
         _domain.init(smallM);
@@ -83,6 +84,7 @@ struct ChineseRemainder<Ring, Domain, false>  {
         // Then res mod M == A
         // And  res mod D == e
     RingElement & operator()( RingElement& res, const RingElement& A, const DomainElement& e) const {
+        if (&res == &A) { const RingElement a(A); return (*this)(res, a, e); } // res may be the same object as A
         _domain.convert(res, e);
         res -= A;
         res *= C_12;
